@@ -88,13 +88,35 @@ func (c *Ctx) sitesOf(fn *ssa.Function) map[ssa.Instruction]siteInfo {
 			seq++
 		}
 	}
-	sort.SliceStable(all, func(i, j int) bool {
-		pi, pj := all[i].pos, all[j].pos
-		if pi.IsValid() && pj.IsValid() && pi != pj {
-			return pi < pj
+	if !c.LegacySiteOrder {
+		// a strict total order: an instruction without a position takes the position of the closest
+		// preceding instruction (in block order) that has one; ties are broken by block order
+		eff := make([]token.Pos, len(all))
+		last := token.NoPos
+		for i := range all {
+			if all[i].pos.IsValid() {
+				last = all[i].pos
+			}
+			eff[i] = last
 		}
-		return all[i].seq < all[j].seq
-	})
+		for i := range all {
+			all[i].pos = eff[i]
+		}
+		sort.SliceStable(all, func(i, j int) bool {
+			if all[i].pos != all[j].pos {
+				return all[i].pos < all[j].pos
+			}
+			return all[i].seq < all[j].seq
+		})
+	} else {
+		sort.SliceStable(all, func(i, j int) bool {
+			pi, pj := all[i].pos, all[j].pos
+			if pi.IsValid() && pj.IsValid() && pi != pj {
+				return pi < pj
+			}
+			return all[i].seq < all[j].seq
+		})
+	}
 	for _, e := range all {
 		cl := c.siteClass(e.ins)
 		if cl == "" {
@@ -1598,4 +1620,36 @@ func defersRecover(fn *ssa.Function) bool {
 		}
 	}
 	return false
+}
+
+// SiteOrderDiff lists, for every function under contract, the sites whose ordinal differs between
+// the historical ordering and the strict total order (development aid for migrating contracts).
+func (c *Ctx) SiteOrderDiff() []string {
+	var out []string
+	keys := make([]string, 0, len(c.Contracts))
+	for k := range c.Contracts {
+		keys = append(keys, k)
+	}
+	sort.Strings(keys)
+	for _, k := range keys {
+		fn := c.Funcs[k]
+		if fn == nil || len(fn.Blocks) == 0 {
+			continue
+		}
+		c.LegacySiteOrder = true
+		delete(c.sites, fn)
+		old := c.sitesOf(fn)
+		c.LegacySiteOrder = false
+		delete(c.sites, fn)
+		nw := c.sitesOf(fn)
+		delete(c.sites, fn)
+		for ins, o := range old {
+			n := nw[ins]
+			if o.ord != n.ord {
+				out = append(out, fmt.Sprintf("%s\t%s\t%d\t%d\t%s", k, o.class, o.ord, n.ord, c.pos(ins.Pos())))
+			}
+		}
+	}
+	sort.Strings(out)
+	return out
 }
